@@ -250,6 +250,43 @@ class Spec(object):
     chunk = 100
     chunk_timeout = 600
 
+    # --- isolation invariant (specs that run large parts of the library)
+    guard_globals = False
+
+    def guarded_execute(self, case):
+        """execute() plus the isolation invariant: a run must leave the
+        library's process-global tables (vc2_data_tables.*, the level ordering
+        table) exactly as it found them.  A run that mutates one would make
+        every later execution in the process depend on history (nothing would
+        replay), and it is precisely the kind of state leak between sequences /
+        runs / worker commands that C10 and C24 forbid.  The table is restored
+        so that later runs are unaffected."""
+        if not self.guard_globals:
+            return self.execute(case)
+        before = global_tables_digest()
+        if _PRISTINE_DIGEST and before != _PRISTINE_DIGEST[0]:
+            # something outside a guarded run left a table changed: every run
+            # starts from the pristine tables
+            restore_global_tables()
+            before = global_tables_digest()
+        out = self.execute(case)
+        after = global_tables_digest()
+        if after != before:
+            changed = sorted(n for n in after if after[n] != before.get(n))
+            restore_global_tables()
+            if out.status != VIOLATION:
+                out = Outcome(
+                    VIOLATION,
+                    [("global-table-mutated", changed, out.digest)],
+                    sig="%s/process-global-table-mutated/%s" % (self.prop, ",".join(changed)),
+                    detail="executing this case changed the library's process-global table(s) %s — state leaks from one picture/sequence/run into every later one in the process" % ", ".join(changed),
+                    stats=out.stats,
+                    nontrivial=True,
+                    key=out.key,
+                    ticks=out.ticks,
+                )
+        return out
+
     def setup(self, verif_seed, tier):
         pass
 
@@ -273,6 +310,45 @@ class Spec(object):
 
     def extra_evidence(self, merged):
         return {}
+
+
+_PRISTINE = {}
+_PRISTINE_DIGEST = []
+
+
+def _tables():
+    import vc2_data_tables as T
+    from vc2_conformance.level_constraints import LEVEL_SEQUENCE_RESTRICTIONS
+
+    out = {"vc2_data_tables." + n: getattr(T, n) for n in dir(T) if n.isupper() and isinstance(getattr(T, n), (dict, list))}
+    out["level_constraints.LEVEL_SEQUENCE_RESTRICTIONS"] = LEVEL_SEQUENCE_RESTRICTIONS
+    return out
+
+
+def global_tables_digest():
+    import copy
+
+    tabs = _tables()
+    d = {n: hash(repr(t)) for n, t in tabs.items()}
+    if not _PRISTINE:
+        for n, t in tabs.items():
+            _PRISTINE[n] = copy.deepcopy(t)
+        _PRISTINE_DIGEST.append(d)
+    return d
+
+
+def restore_global_tables():
+    import copy
+
+    for n, t in _tables().items():
+        good = _PRISTINE[n]
+        if repr(t) != repr(good):
+            if isinstance(t, dict):
+                t.clear()
+                t.update(copy.deepcopy(good))
+            else:
+                del t[:]
+                t.extend(copy.deepcopy(good))
 
 
 def shrink_list(xs):
@@ -330,7 +406,7 @@ def _run_chunk(args):
         for idx in range(start, stop):
             rng = rng_for(verif_seed, spec.sim, spec.prop, idx)
             case = spec.generate(rng, idx, tier)
-            out = spec.execute(case)
+            out = spec.guarded_execute(case)
             for k, v in out.stats.items():
                 stats[k] += v
             ticks += out.ticks
@@ -398,7 +474,7 @@ def minimise(spec, case, sig, budget_s=60.0, max_exec=3000):
                 return case, n
             n += 1
             try:
-                out = spec.execute(cand)
+                out = spec.guarded_execute(cand)
             except OutOfScope:
                 continue
             if out.status == VIOLATION and out.sig == sig:
@@ -453,7 +529,7 @@ def replay_file(path, quiet=False):
         rep = json.load(f)
     spec = get_spec(rep["property"])
     spec.setup(rep.get("verif_seed", DEFAULT_SEED), "quick")
-    out = spec.execute(rep["case"])
+    out = spec.guarded_execute(rep["case"])
     reproduced = out.status == VIOLATION and out.sig == rep["signature"]
     same_digest = out.digest == rep["digest"]
     if not quiet:
@@ -586,11 +662,11 @@ def run_check(spec, tier, verif_seed, n_runs=None, workers=None, first_run=0):
                 # e.g. replace a seeded scheduling policy by the explicit
                 # schedule it produced, so that the replay file holds the list
                 ecase = spec.explicate(case)
-                eout = spec.execute(ecase)
+                eout = spec.guarded_execute(ecase)
                 if eout.status == VIOLATION and eout.sig == s:
                     case = ecase
             mcase, nexec = minimise(spec, case, s)
-            out = spec.execute(mcase)
+            out = spec.guarded_execute(mcase)
         except Exception as exc:
             print("HARNESS-ERROR minimiser failed: %r" % (exc,))
             traceback.print_exc()
